@@ -61,15 +61,65 @@ func panicText(p any) string {
 	return fmt.Sprintf("%v\n%s", p, st)
 }
 
+// compileRT is a long-lived runtime used for the compile-only steps (the
+// compilers do not depend on the runtime's state); it is replaced after a panic.
+var compileRT *rt.Runtime
+
+func inCtx(r *rt.Runtime, cpu, mem uint64, f func() error) (killed bool, err error) {
+	ctx, err := r.MainThread().CallContext(rt.RuntimeContextDef{
+		HardLimits: rt.RuntimeResources{Cpu: cpu, Memory: mem},
+	}, f)
+	if ctx != nil && ctx.Status() == rt.StatusKilled {
+		return true, nil
+	}
+	return false, err
+}
+
 // execSource compiles src with both compile entry points and, if it is an
-// acceptable chunk, runs it for a bounded number of ticks.
+// acceptable chunk, runs it in a fresh runtime for a bounded number of ticks.
 func execSource(src []byte) (o Outcome) {
 	stage := "setup"
 	defer func() {
 		if p := recover(); p != nil {
+			compileRT = nil
 			o = Outcome{Class: "panic", Msg: "during " + stage + ": " + panicText(p), NonTrivial: true}
 		}
 	}()
+	if compileRT == nil {
+		compileRT = rt.New(&bytes.Buffer{})
+	}
+	cr := compileRT
+
+	// 1. chunk-or-expression entry point (used by the REPL)
+	stage = "CompileLuaChunkOrExp"
+	orexp := "ok"
+	killed, err := inCtx(cr, srcCompileCPU, srcCompileMem, func() error {
+		_, _, err := cr.CompileLuaChunkOrExp("chunk", src)
+		return err
+	})
+	if killed {
+		orexp = "killed"
+	} else if err != nil {
+		orexp = "error"
+	}
+	o.Note = "orexp=" + orexp
+
+	// 2. chunk entry point
+	stage = "CompileLuaChunk"
+	killed, err = inCtx(cr, srcCompileCPU, srcCompileMem, func() error {
+		_, _, err := cr.CompileLuaChunk("chunk", src)
+		return err
+	})
+	if killed {
+		return Outcome{Class: "killed", Msg: "while compiling", NonTrivial: true, Note: o.Note}
+	}
+	if err != nil {
+		msg := err.Error()
+		return Outcome{Class: "compile-error", Msg: clip(msg, 300), NonTrivial: pastFirstToken(src, msg), Note: o.Note}
+	}
+
+	// 3. accepted: load and run it in a fresh runtime
+	stage = "setup of the run"
 	stdout := &bytes.Buffer{}
 	r := rt.New(stdout)
 	cleanup := lib.LoadAll(r)
@@ -85,50 +135,19 @@ func execSource(src []byte) (o Outcome) {
 	} else if err := rt.Call(r.MainThread(), rt.FunctionValue(clos), nil, rt.NewTerminationWith(nil, 0, false)); err != nil {
 		panic("sanitize prelude: " + err.Error())
 	}
-	inCtx := func(cpu, mem uint64, f func() error) (killed bool, err error) {
-		ctx, err := r.MainThread().CallContext(rt.RuntimeContextDef{
-			HardLimits: rt.RuntimeResources{Cpu: cpu, Memory: mem},
-		}, f)
-		if ctx != nil && ctx.Status() == rt.StatusKilled {
-			return true, nil
-		}
-		return false, err
-	}
-
-	// 1. chunk-or-expression entry point (used by the REPL)
-	stage = "CompileLuaChunkOrExp"
-	orexp := "ok"
-	killed, err := inCtx(srcCompileCPU, srcCompileMem, func() error {
-		_, _, err := r.CompileLuaChunkOrExp("chunk", src)
-		return err
-	})
-	if killed {
-		orexp = "killed"
-	} else if err != nil {
-		orexp = "error"
-	}
-
-	// 2. chunk entry point
 	stage = "CompileAndLoadLuaChunk"
 	var clos *rt.Closure
-	killed, err = inCtx(srcCompileCPU, srcCompileMem, func() error {
+	killed, err = inCtx(r, srcCompileCPU, srcCompileMem, func() error {
 		var err error
 		clos, err = r.CompileAndLoadLuaChunk("chunk", src, env)
 		return err
 	})
-	o.Note = "orexp=" + orexp
-	if killed {
-		return Outcome{Class: "killed", Msg: "while compiling", NonTrivial: true, Note: o.Note}
+	if killed || err != nil {
+		return Outcome{Class: "compile-error", Msg: "second compilation failed: " + fmt.Sprint(err), NonTrivial: true, Note: o.Note}
 	}
-	if err != nil {
-		msg := err.Error()
-		return Outcome{Class: "compile-error", Msg: clip(msg, 300), NonTrivial: pastFirstToken(src, msg), Note: o.Note}
-	}
-
-	// 3. run
 	stage = "run"
 	term := rt.NewTerminationWith(nil, 0, true)
-	killed, err = inCtx(srcRunCPU, srcRunMem, func() error {
+	killed, err = inCtx(r, srcRunCPU, srcRunMem, func() error {
 		return rt.Call(r.MainThread(), rt.FunctionValue(clos), nil, term)
 	})
 	o.NonTrivial = true
@@ -367,7 +386,43 @@ var hostile = func() []string {
 	}
 }()
 
-type srcGen struct{}
+var luaKeywords = map[string]bool{"and": true, "break": true, "do": true, "else": true, "elseif": true, "end": true, "false": true, "for": true, "function": true, "goto": true, "if": true, "in": true,
+	"local": true, "nil": true, "not": true, "or": true, "repeat": true, "return": true, "then": true, "true": true, "until": true, "while": true}
+
+var binops = []string{"+", "-", "*", "/", "//", "%", "^", "..", "<<", ">>", "&", "|", "~", "==", "~=", "<", "<=", ">", ">=", "and", "or"}
+
+var numberLits = []string{"0", "1", "-1", "2", "255", "256", "0.5", "1e308", "1e309", "5e-324", "0x7fffffffffffffff", "0xffffffffffffffff", "9223372036854775807", "9223372036854775808", "0x1p-1074", "0x1p1023", "0x1p1024",
+	"1e99999", "0x.1p4", "3.0", "2^53", "(0/0)", "(1/0)", "(-1/0)", "math.mininteger", "math.maxinteger", "(-0.0)", "1e15", "1e16", "123456789012345678901234567890", strings.Repeat("9", 310), "0x" + strings.Repeat("f", 40), "1e-400", "0xA", "1E2", "0x1P2", ".5", "5."}
+
+var stringLits = []string{`""`, `"a"`, `"%"`, `"%d"`, `"%s%s"`, `"[a"`, `"%1"`, `"\0"`, `"\255"`, `"\u{10FFFF}"`, `"\u{7FFFFFFF}"`, `"\xff\xfe"`, "[[]]", "[==[]==]", "[[\n]]", "[=[\n\nx]=]", `"\z   x"`, `'\''`, `"10"`, `"0x10"`, `" 5 "`, `"1e1"`, `"nan"`, `"inf"`,
+	`"__index"`, `"__gc"`, `"__close"`, `"__mode"`, `"k"`, `"n"`, `"a.b"`, `"?"`, `("x"):rep(1000)`, `("x"):rep(100000)`, `"*a"`, `"r"`, `"\\"`, `"\n"`, `"\r\n"`}
+
+func tokKind(tok string) string {
+	if tok == "" {
+		return "other"
+	}
+	c := tok[0]
+	switch {
+	case c >= '0' && c <= '9', c == '.' && len(tok) > 1 && tok[1] >= '0' && tok[1] <= '9':
+		return "number"
+	case c == '"' || c == '\'', c == '[' && len(tok) > 1 && (tok[1] == '[' || tok[1] == '='):
+		return "string"
+	case c == '_' || c >= 'a' && c <= 'z' || c >= 'A' && c <= 'Z':
+		if tok == "and" || tok == "or" {
+			return "binop"
+		}
+		if luaKeywords[tok] {
+			return "keyword"
+		}
+		return "name"
+	}
+	for _, b := range binops {
+		if tok == b {
+			return "binop"
+		}
+	}
+	return "other"
+}
 
 func drawPos(t *rapid.T, n int, label string) int {
 	if n <= 0 {
@@ -388,7 +443,8 @@ func mutateTokens(t *rapid.T, toks []string, other []string) ([]string, string) 
 	if len(idx) == 0 {
 		return append(toks, rapid.SampledFrom(hostile).Draw(t, "hostile")), "insert-hostile"
 	}
-	op := rapid.SampledFrom([]string{"delete", "duplicate", "swap", "truncate", "splice", "insert-hostile", "insert-hostile", "replace-hostile", "replace-token", "delete-range"}).Draw(t, "op")
+	op := rapid.SampledFrom([]string{"delete", "duplicate", "swap", "truncate", "splice", "insert-hostile", "replace-hostile", "replace-token", "delete-range",
+		"same-kind", "same-kind", "same-kind", "same-kind", "same-kind", "swap-same-kind", "swap-same-kind"}).Draw(t, "op")
 	out := append([]string{}, toks...)
 	p := idx[drawPos(t, len(idx), "pos")]
 	switch op {
@@ -426,8 +482,75 @@ func mutateTokens(t *rapid.T, toks []string, other []string) ([]string, string) 
 		out[p] = rapid.SampledFrom(hostile).Draw(t, "hostile")
 	case "replace-token":
 		out[p] = rapid.SampledFrom(luaAlphabet).Draw(t, "tok")
+	case "same-kind":
+		// keep the program syntactically plausible: a literal becomes another
+		// (hostile) literal, an operator another operator, a name another name
+		switch k := tokKind(toks[p]); k {
+		case "number":
+			out[p] = rapid.SampledFrom(numberLits).Draw(t, "num")
+		case "string":
+			out[p] = rapid.SampledFrom(stringLits).Draw(t, "str")
+		case "binop":
+			out[p] = rapid.SampledFrom(binops).Draw(t, "binop")
+		case "name":
+			q := idx[drawPos(t, len(idx), "pos2")]
+			if tokKind(toks[q]) == "name" {
+				out[p] = toks[q]
+			} else {
+				out[p] = rapid.SampledFrom([]string{"nil", "true", "_ENV", "x", "math.huge", "(0/0)", "math.mininteger", "{}", "(function(...) return ... end)"}).Draw(t, "name")
+			}
+		default:
+			out[p] = rapid.SampledFrom(luaAlphabet).Draw(t, "tok")
+		}
+	case "swap-same-kind":
+		k := tokKind(toks[p])
+		var same []int
+		for _, q := range idx {
+			if q != p && tokKind(toks[q]) == k {
+				same = append(same, q)
+			}
+		}
+		if len(same) > 0 {
+			q := same[drawPos(t, len(same), "pos2")]
+			out[p], out[q] = out[q], out[p]
+		}
 	}
 	return out, op
+}
+
+// mutateBenign applies one kind-preserving replacement.
+func mutateBenign(t *rapid.T, toks []string) ([]string, string) {
+	var idx []int
+	for i, tk := range toks {
+		switch tokKind(tk) {
+		case "number", "string", "binop", "name":
+			if !isTrivia(tk) {
+				idx = append(idx, i)
+			}
+		}
+	}
+	if len(idx) == 0 {
+		return toks, "none"
+	}
+	out := append([]string{}, toks...)
+	p := idx[drawPos(t, len(idx), "pos")]
+	k := tokKind(toks[p])
+	switch k {
+	case "number":
+		out[p] = rapid.SampledFrom(numberLits).Draw(t, "num")
+	case "string":
+		out[p] = rapid.SampledFrom(stringLits).Draw(t, "str")
+	case "binop":
+		out[p] = rapid.SampledFrom(binops).Draw(t, "binop")
+	default:
+		q := idx[drawPos(t, len(idx), "pos2")]
+		if tokKind(toks[q]) == "name" {
+			out[p] = toks[q]
+		} else {
+			out[p] = rapid.SampledFrom([]string{"nil", "true", "_ENV", "x", "math.huge", "(0/0)", "math.mininteger", "{}", "(function(...) return ... end)"}).Draw(t, "name")
+		}
+	}
+	return out, "benign-" + k
 }
 
 // mutateBytes applies one byte-level corruption.
@@ -470,7 +593,7 @@ func mutateBytes(t *rapid.T, s string) (string, string) {
 // genSource draws one source case.
 func genSource(t *rapid.T) Case {
 	loadSeeds()
-	gen := rapid.SampledFrom([]string{"bytes", "soup", "soup", "hostile-soup", "mutate", "mutate", "mutate", "mutate-window", "mutate-window"}).Draw(t, "gen")
+	gen := rapid.SampledFrom([]string{"bytes", "soup", "hostile-soup", "mutate", "mutate", "mutate-window", "mutate-benign", "mutate-benign", "mutate-benign", "mutate-benign"}).Draw(t, "gen")
 	var src string
 	switch gen {
 	case "bytes":
@@ -499,7 +622,13 @@ func genSource(t *rapid.T) Case {
 		nmut := rapid.IntRange(1, 4).Draw(t, "nmut")
 		var ops []string
 		for i := 0; i < nmut; i++ {
-			if rapid.IntRange(0, 3).Draw(t, "level") == 0 {
+			if gen == "mutate-benign" {
+				// literal-for-literal, operator-for-operator, name-for-name: the
+				// result usually still compiles, so that it is also RUN
+				var op string
+				toks, op = mutateBenign(t, toks)
+				ops = append(ops, op)
+			} else if rapid.IntRange(0, 3).Draw(t, "level") == 0 {
 				s, op := mutateBytes(t, strings.Join(toks, ""))
 				toks = lexLua(s)
 				ops = append(ops, op)
@@ -575,6 +704,7 @@ func superviseSources(rec *ev.Recorder, known map[string]bool) {
 		x := runChild(Job{Mode: "sources", Stream: stream, Checks: n, Known: known, HangS: 90}, 40*time.Minute)
 		stream++
 		done += n
+		fmt.Printf("sources worker: %d cases in %.1fs\n", n, x.wall.Seconds())
 		mergePartial(rec, x.res)
 		switch {
 		case x.timeout || x.hang:
